@@ -79,8 +79,20 @@ def run(ctx: Ctx):
     it = vg.Interp(ctx.repo, None)
     fr = it.run_function(fi)
     ret = fr.ret
+    # the copies are returned as they are: a value-changing call around the concatenation (clamp, round, normalise ...) turns
+    # the signed permutations into something else for coordinates outside its fixed set
+    post = []
+    while isinstance(ret, vg.S) and ret.op == "meth" and nf._fn(ret) != "torch.cat" and ret.args[1] not in ("contiguous", "clone", "to", "float"):
+        post.append(ret.args[1])
+        ret = ret.args[0]
+    while isinstance(ret, vg.S) and ret.op == "meth" and ret.args[1] in ("contiguous", "clone", "to", "float"):
+        ret = ret.args[0]
     if not (nf._fn(ret) == "torch.cat" and nf._seq_items(ret.args[1])):
         raise AnalysisError("dihedral_8_augmentation: return is not a torch.cat of the copies")
+    ctx.ob("C15.a", "dihedral:copies-returned-unmodified", not post, fi.loc,
+           "the concatenated copies are returned as they are" if not post else
+           f"the concatenation passes through .{'/.'.join(post)}(...) before it is returned: the copies are no longer the eight signed permutations for every coordinate",
+           construct="dihedral_8_augmentation:post-processed")
     zs = nf._seq_items(ret.args[1])
     dim0 = nf.axis_is(ret, 0)
     ctx.ob("C15.a", "dihedral:concat-dim0-8-copies", len(zs) == 8 and dim0, fi.loc, f"{len(zs)} copies concatenated on dim 0 (layout (augment, batch))", construct="dihedral_8_augmentation:concat")
@@ -369,6 +381,40 @@ def run(ctx: Ctx):
                f"reported reward recomputed by self.env.get_reward: {recomputed}; rollout made on the evaluation env (policy(..., env=self.env)): {on_eval_env}" +
                ("" if ok else " -- the reward is the one of a default-configured env built by the policy, not the objective of the returned actions on the evaluated env"),
                construct=f"{cn}._inner:reward-env")
+    # ---- i: the returned actions are the selected rollouts as decoded: no step-axis slicing (a trailing 0 is the depot padding of a
+    #         routing env but a CITY of a depot-less one), and the two identity flags of the augmentation stay opposite
+    for cn in ("GreedyEval", "AugmentationEval", "SamplingEval", "GreedyMultiStartEval", "GreedyMultiStartAugmentEval"):
+        fi = ctx.repo.get_function(EV, f"{cn}._inner")
+        ite = vg.Interp(ctx.repo, fi.cls, inline_policy=lambda f, a: False)
+        fre = ite.run_function(fi)
+        ret = fre.ret
+        items = ret.items if isinstance(ret, vg.Tup) else (list(ret.args) if isinstance(ret, vg.S) and ret.op == "tuple" else [])
+        acts = items[0] if items and isinstance(items[0], vg.S) else None
+        cut = []
+        if acts is not None:
+            for n_ in vg.walk(acts):
+                if n_.op == "sub" and isinstance(n_.args[1], vg.S):
+                    idx = n_.args[1]
+                    comps = list(idx.args) if idx.op == "tuple" else [idx]
+                    if any(c.op == "slice" and not all(vg.is_none(y) for y in c.args) for c in comps if isinstance(c, vg.S)):
+                        cut.append(n_)
+        ctx.ob("C15.i", f"{cn}._inner:actions-returned-whole", acts is not None and not cut, fi.loc,
+               "the returned actions are the selected rollouts, unsliced" if not cut else
+               f"the returned actions are sliced ({vg.show(cut[0], 3)[:70]}): entries of the rollout are dropped, the reported reward is no longer the objective of what is returned",
+               construct=f"{cn}._inner:actions-sliced")
+    tr_mod = ctx.repo.module_by_path(TR)
+    bad_kw = []
+    for c in _ast.walk(tr_mod.tree):
+        if isinstance(c, _ast.Call):
+            for k in c.keywords:
+                if k.arg == "first_augment" and any(isinstance(x, (_ast.Name, _ast.Attribute)) and (getattr(x, "id", None) == "first_aug_identity" or getattr(x, "attr", None) == "first_aug_identity") for x in _ast.walk(k.value)):
+                    negated = isinstance(k.value, _ast.UnaryOp) and isinstance(k.value.op, _ast.Not)
+                    if not negated:
+                        bad_kw.append(c)
+    ctx.ob("C15.i", "transforms:first_augment-is-not-first_aug_identity", not bad_kw, TR,
+           "`first_augment` (augment the first copy too) is never bound to `first_aug_identity` (keep the first copy) un-negated" if not bad_kw else
+           f"`{_ast.unparse(bad_kw[0])[:80]}` passes first_aug_identity as first_augment: the flags mean the opposite, the first copy becomes a random rotation by default",
+           construct="transforms:first-augment-flag")
     # shared rules (C12 factor/best-of, C17 loader order) are run again under this property
     from . import C12, C17
     n0 = len(ctx.obligations)
